@@ -84,6 +84,17 @@ def main():
             q = un(rng.choice(["rise", "fall"]), q)
             phi = rng.choice([q, un("not", q), un("evT", q, 0, rng.choice([1, 2, 3])), un("alwT", q, 0, rng.choice([1, 2])), un("next", q)])
             N = rng.choice([2, 3, 4])
+        if rng.random() < 0.08:
+            # a bounded operator that receives a multi-sample interval from its parent, on a trace long enough that the windows
+            # are not clipped by the end of the trace (one variable, N up to 7)
+            v0 = rng.choice(vs)
+            a0 = pred(rng.choice(["ge", "gt", "le", "lt"]), var(v0), const(thr[v0]))
+            i1, i2 = rng.choice([(0, 2), (1, 2), (0, 1), (1, 3)]), rng.choice([(0, 1), (1, 2), (0, 2), (1, 1)])
+            o1, o2 = rng.choice(["evT", "alwT"]), rng.choice(["evT", "alwT"])
+            phi = un(o1, un(o2, a0, *i2), *i1)
+            if rng.random() < 0.5:
+                phi = un("not", phi)
+            N = min(7, i1[1] + i2[1] + rng.choice([1, 2]))
         if rng.random() < 0.1:
             # a comparison whose operand is the value of a temporal / Boolean sub-formula (no polarity below the comparison)
             v0 = rng.choice(vs)
